@@ -27,6 +27,7 @@ ASSUMPTIONS = ["output tables have temperatures as rows and pressures as columns
                "T-LIB: RectBivariateSpline(x, y, z)(xi, yi, grid=False) evaluates pointwise with x <-> rows of z"]
 
 
+from ..anf import short
 from ..tablemodel import Axis, Table, Grid2, Line1, SeriesV, OutTable, ARGMIN, ABS, labels, role_of, canon_pos, PART_ROLES, intrinsics as table_intrinsics
 
 
@@ -201,6 +202,22 @@ def dtype_from_geotherm(f):
     return bad
 
 
+def scaled_axis(x):
+    """(role, scale) when x = scale * LABELS_role with a scale that mentions the labels only inside MAX(...) / MIN(...); else (None, None)"""
+    if not is_sym(x):
+        return None, None
+    x = sp.sympify(x)
+    for role in ("T", "P"):
+        L = labels(role)
+        if L not in x.free_symbols:
+            continue
+        ratio = sp.cancel(x / L)
+        probe = ratio.replace(lambda t: getattr(t.func, "__name__", "") in ("MAX", "MIN"), lambda t: sp.Dummy("ext", positive=True))
+        if L not in probe.free_symbols:
+            return role, ratio
+    return None, None
+
+
 def covering_slice(sl, role):
     """the slice of the axis `role` contains every node from the one at or below the geotherm's smallest value to the one at or above its largest"""
     from ..sym import SliceV
@@ -315,7 +332,23 @@ def r_geotherm(ctx, model):
     if len(cap["evals"]) != 2:
         bad.append(f"{len(cap['evals'])} spline evaluations for 2 variables")
     for (spl, args, kw), var in zip(cap["evals"], ("c11s", "vp")):
-        b = spl.b
+        b = dict(spl.b)
+        # an axis divided by a number that depends on the axis only through its extremes (x / ptp(x), x / x.max()) is the same axis in other units: accepted when the
+        # geotherm coordinate handed to the spline is divided by the very same number
+        scales = {}
+        for nm, pos in (("x", 0), ("y", 1)):
+            role_, scale_ = scaled_axis(b.get(nm))
+            if role_ is not None and scale_ != 1 and len(args) == 2:
+                g_ = sp.Symbol("GEO_" + role_)
+                a_ = sp.sympify(as_sym(args[pos])) if is_sym(args[pos]) else None
+                if a_ is not None and sp.simplify(a_ / g_ - scale_) == 0:
+                    b[nm] = labels(role_)
+                    args = list(args)
+                    args[pos] = g_
+                else:
+                    scales[nm] = (role_, scale_, a_)
+        if scales:
+            bad.append("; ".join(f"spline axis {nm} is the {r_} labels times {short(sc_, 60)} but the geotherm coordinate handed to it is {short(a_, 60)}" for nm, (r_, sc_, a_) in scales.items()))
         rx, ry = (role_of(b.get("x")) if is_sym(b.get("x")) else getattr(b.get("x"), "role", None)), \
                  (role_of(b.get("y")) if is_sym(b.get("y")) else getattr(b.get("y"), "role", None))
         z = b.get("z")
